@@ -726,9 +726,22 @@ class VerifyingBase(LookupBaseFallback):  # noqa F821
     # zope.component.persistentregistry
 
     def changed(self, originally_changed):
+        # Take the snapshot of the base generations *before* dropping the
+        # caches: an answer that gets cached from now on (by another
+        # thread, or by the destructor of a value only the caches kept
+        # alive) is then at least as new as the snapshot, and a base that
+        # changes after that answer was computed is noticed.
+        try:
+            verify_ro = self._registry.ro[1:]
+            verify_generations = [r._generation for r in verify_ro]
+        except BaseException:
+            # Nothing we have cached may outlive a change, even one we
+            # could not take a new snapshot for.
+            LookupBaseFallback.changed(self, originally_changed)  # noqa F821
+            raise
         LookupBaseFallback.changed(self, originally_changed)  # noqa F821
-        self._verify_ro = self._registry.ro[1:]
-        self._verify_generations = [r._generation for r in self._verify_ro]
+        self._verify_ro = verify_ro
+        self._verify_generations = verify_generations
 
     def _verify(self):
         if (
